@@ -272,6 +272,58 @@ func c13Observe(text string) M {
 				_ = r.String()
 			}
 		})
+		// the parts of a statement walked on their own (an absent INTO target is a nil *Target, an absent condition a nil Expr)
+		rec("Walk/parts", func() {
+			s := sel(fresh())
+			f := func(influxql.Node) {}
+			influxql.WalkFunc(s.Target, f)
+			influxql.WalkFunc(s.Condition, f)
+			influxql.WalkFunc(s.Fields, f)
+			influxql.WalkFunc(s.Dimensions, f)
+			influxql.WalkFunc(s.Sources, f)
+			for _, x := range s.Fields {
+				influxql.WalkFunc(x, f)
+			}
+			for _, x := range s.Sources {
+				influxql.WalkFunc(x, f)
+			}
+			influxql.RewriteFunc(s.Target, func(n influxql.Node) influxql.Node { return n })
+		})
+		// a derived statement is rewritten in place, then the ORIGINAL is used again
+		for _, d := range []struct {
+			name string
+			f    func(s *influxql.SelectStatement) *influxql.SelectStatement
+		}{
+			{"Reduce", func(s *influxql.SelectStatement) *influxql.SelectStatement { return s.Reduce(&influxql.NowValuer{Now: c13Now}) }},
+			{"Clone", func(s *influxql.SelectStatement) *influxql.SelectStatement { return s.Clone() }},
+			{"RewriteFields", func(s *influxql.SelectStatement) *influxql.SelectStatement {
+				r, err := s.RewriteFields(c13Schemas()[1])
+				if err != nil {
+					return nil
+				}
+				return r
+			}},
+		} {
+			d := d
+			rec("seq:"+d.name+";in-place rewrites of the result;the original again", func() {
+				s := sel(fresh())
+				r := d.f(s)
+				if r == nil {
+					return
+				}
+				r.RewriteTimeFields()
+				r.RewriteDistinct()
+				r.RewriteRegexConditions()
+				_ = r.String()
+				_ = s.String()
+				_ = s.ColumnNames()
+				_ = s.Clone().String()
+				influxql.WalkFunc(s, func(influxql.Node) {})
+				_ = s.HasWildcard()
+				_ = s.Fields.Names()
+				_, _ = s.RequiredPrivileges()
+			})
+		}
 		rec("seq:Reduce;ConditionExpr;Normalize", func() {
 			s := sel(fresh()).Reduce(&influxql.NowValuer{Now: c13Now})
 			_, _, _ = influxql.ConditionExpr(s.Condition, nil)
